@@ -21,6 +21,7 @@ BODIES = {
     'batch_mixed': b'[{"jsonrpc": "2.0", "id": 1, "method": "ok", "params": [1]}, {"jsonrpc": "2.0", "id": 2, "method": "perr"}]',
     'batch_notif': b'[{"jsonrpc": "2.0", "method": "ok", "params": [1]}, {"jsonrpc": "2.0", "method": "perr"}]',
     'unknown': b'{"jsonrpc": "2.0", "id": 1, "method": "nope"}',
+    'badparams': b'{"jsonrpc": "2.0", "id": 1, "method": "ok", "params": {"zz": 1}}',
     'invalid': b'{"jsonrpc": "1.0", "id": 1, "method": "ok"}',
     'notjson': b'{"jsonrpc": "2.0", "id": 1, "meth',
     'non_utf8': b'\xff\xfe{"jsonrpc": "2.0", "id": 1, "method": "ok", "params": [1]}',
